@@ -191,7 +191,7 @@ Definition core_probe (m : mdomain) (q : probe8) : probe :=
 Definition probe_consistent (c : case) (q : probe8) : bool :=
   match spec_of c (read_text (c_text c)) with
   | Some d => match find_action d (q_action q) with
-              | Some a => consistent (all_groups (c_eps c) (spec_tt d) (c_objs c) a (q_args q) (q_state q))
+              | Some a => consistent (all_groups (c_eps c) (spec_tt d) (dupdate (sd_consts d) (c_objs c)) a (q_args q) (q_state q))
               | None => true end
   | None => true
   end.
